@@ -2,7 +2,7 @@
    Property theorems only; proofs live in Proof/NegoP.v (layer 1: the pure helper functions)
    and Proof/NegoExP.v (layer 2: the offer/answer skeleton).  The model is Model/Nego.v. *)
 From Coq Require Import ZArith List Bool.
-From AV Require Import Model.Nego Proof.NegoP Proof.NegoExP Proof.NegoWfP Proof.NegoCodecP Proof.NegoOkP.
+From AV Require Import Model.Nego Proof.NegoP Proof.NegoExP Proof.NegoWfP Proof.NegoCodecP Proof.NegoOkP Proof.NegoDirP.
 Import ListNotations.
 Local Open Scope Z_scope.
 
@@ -120,6 +120,23 @@ Theorem C03_answered_section : forall T mo ma, section_ok T mo ma -> is_av (m_ki
                    (sends d_a = true -> recvs d_o = true) /\ (recvs d_a = true -> sends d_o = true)).
 Proof. exact section_ok_codecs. Qed.
 Print Assumptions C03_answered_section.
+
+(* complementary current directions: after an exchange at any point of any session, for every audio/video
+   section of the answer there is exactly one transceiver per side carrying its mid; the answerer's has
+   currentDirection = the answered direction, the offerer's has the reverse of it (so one side sends exactly
+   when the other receives, cf. C03_direction_laws) *)
+Theorem C03_current_directions_complementary : forall T pol_a pol_b steps a b,
+  run_session true T (init_pc pol_a) (init_pc pol_b) steps = Ok (a, b) ->
+  forall x, (exchange true T a b = Ok x \/ exchange true T b a = Ok x) ->
+  Forall (section_directions x) (d_media (x_answer x)).
+Proof.
+  intros T pol_a pol_b steps a b H x Hx.
+  destruct (run_session_wf true T steps _ _ _ _ H (wf_init T pol_a) (wf_init T pol_b) eq_refl) as [Wa [Wb Hs]].
+  destruct Hx as [Hx|Hx].
+  - exact (exchange_directions T a b x Hx Wa Wb Hs).
+  - exact (exchange_directions T b a x Hx Wb Wa (eq_sym Hs)).
+Qed.
+Print Assumptions C03_current_directions_complementary.
 
 (* FULL STATEMENT.  At any point of any session the next offer/answer exchange SUCCEEDS (returns Ok, hence by
    C03_answer_mirrors_offer leaves both sides stable with mirrored sections ...), in either direction, i.e. also
